@@ -300,11 +300,39 @@ def check_stale_comparator(ctx, rule: str):
     return cur, cons
 
 
+def check_readiness_ignores_own_decision(ctx, rule: str) -> None:
+    """Whether a gate is scheduled again is decided by its inputs (staleness), its signals and the gates that control
+    it — never by what the gate itself decided last time: a gate that once answered END must be asked again when its
+    inputs change (an inner 'skip this turn' gate, or a gate first evaluated on a default)."""
+    db, rep = ctx.db, ctx.rep
+    inr = db.func("runners._shared.helpers._is_node_ready")
+    clo = [f for f in db.closure([inr], property_reads=False) if f.module is inr.module]
+    bad = None
+    n_f = 0
+    for f in clo:
+        npar = next((p_ for p_ in f.param_names if "HyperNode" in src(f.param_annotation(p_) or ast.Constant("")) or p_ == "node"), None)
+        if npar is None:
+            continue
+        n_f += 1
+        own = f"{npar}.name"
+        for n in walk_local(f.node):
+            if isinstance(n, ast.Subscript) and src(n.value).endswith("routing_decisions") and src(n.slice) == own:
+                bad = (f, n)
+            elif isinstance(n, ast.Call) and isinstance(n.func, ast.Attribute) and n.func.attr in ("get", "pop") and src(n.func.value).endswith("routing_decisions") and n.args and src(n.args[0]) == own:
+                bad = (f, n)
+            elif isinstance(n, ast.Compare) and len(n.ops) == 1 and isinstance(n.ops[0], (ast.In, ast.NotIn)) and src(n.left) == own and src(n.comparators[0]).endswith("routing_decisions"):
+                bad = (f, n)
+    if n_f < 3:
+        raise AnalysisError("readiness helpers not found")
+    rep.add(rule, f"{inr.qname}:readiness-ignores-own-decision", bad is None, f"{inr.module.rel}:{(bad[1] if bad else inr.node).lineno}", f"none of the {n_f} readiness helpers reads the decision of the node being scheduled" if bad is None else f"'{src(bad[1])[:60]}' in {bad[0].name} makes a gate's readiness depend on its own previous decision: a gate that answered END once (an inner 'skip this turn' gate, or a loop gate first evaluated on a signature default) is never asked again although its inputs changed — the body runs fewer iterations than the gate dictates")
+
+
 def _r5(ctx) -> None:
     from .c17 import check_block_before_deferral
     from .c03 import check_node_options_used
 
     check_block_before_deferral(ctx, "C04.R5")
+    check_readiness_ignores_own_decision(ctx, "C04.R4")
     # an iteration is one gate decision: the body nodes that decision activates in one step all read the values (and
     # record the versions) of the step's start snapshot, not each other's fresh outputs — else a later node in ready
     # order runs on next-turn values, records them as consumed and is never re-run (a, b = b, a % b needs both reads old)
